@@ -182,4 +182,53 @@ def printStats : Tester → Outcome (Nat × Nat)
       | .panic => .panic
       | .ok nl => .ok (ll, nl)
 
+/-! ## decisions taken with a parsed policy (`isBlocklistedCovertAddr`, `isBlocklistedCovertDomain`,
+`IsBlocklistedPhantom` in registration_config.go); `contains` = `(*net.IPNet).Contains`,
+`matchString` = `(*regexp.Regexp).MatchString` -/
+
+section decisions
+variable {Net Pat IP : Type}
+
+/-- `isBlocklistedCovertAddr`: a configured allowlist takes precedence over the blocklist -/
+def Parsed.covertAddrBlocked (contains : Net → IP → Bool) (p : Parsed Net Pat) (ip : IP) : Bool :=
+  if p.enableAllow then !(p.allow.any (fun n => contains n ip))
+  else p.block.any (fun n => contains n ip)
+
+/-- `isBlocklistedCovertDomain` -/
+def Parsed.covertDomainBlocked (matchString : Pat → String → Bool) (p : Parsed Net Pat) (host : String) : Bool :=
+  p.domains.any (fun r => matchString r host)
+
+/-- `IsBlocklistedPhantom` -/
+def Parsed.phantomBlocked (contains : Net → IP → Bool) (p : Parsed Net Pat) (ip : IP) : Bool :=
+  p.phantom.any (fun n => contains n ip)
+
+end decisions
+
+/-! ## the nil tests of the statistics printer as data
+
+`CachedLivenessTester.printStats` calls `Len()` / `Cap()` through the two optional cache interfaces.
+`CJ/Gen/C19Guards.lean` (regenerated from cached.go on every run) lists every such call together with
+the fields whose non-nil-ness is established by the enclosing `if … != nil` statements. -/
+
+/-- one method call through an optional cache field, and the fields known to be non-nil at that point -/
+structure Deref where
+  field : String
+  guards : List String
+deriving Repr, DecidableEq
+
+open CJ.Liveness in
+/-- the value of an optional cache field of a cached tester (any other name: not a cache, nil) -/
+def fieldOf (live nonLive : Option Cache) (name : String) : Option Cache :=
+  if name = "ipCacheLive" then live else if name = "ipCacheNonLive" then nonLive else none
+
+open CJ.Liveness in
+/-- run the calls in program order: a call whose guards all hold is executed, and panics when its own
+field is nil; a call under a guard that does not hold is skipped -/
+def runDerefs (live nonLive : Option Cache) : List Deref → Outcome Unit
+  | [] => .ok ()
+  | d :: ds =>
+    if d.guards.all (fun g => (fieldOf live nonLive g).isSome) then
+      (if (fieldOf live nonLive d.field).isSome then runDerefs live nonLive ds else .panic)
+    else runDerefs live nonLive ds
+
 end CJ.Config
